@@ -2,6 +2,15 @@ module verif.local/harness
 
 go 1.22
 
-require src.elv.sh v0.0.0
+require (
+	go.etcd.io/bbolt v1.3.10
+	golang.org/x/sys v0.24.0
+	src.elv.sh v0.0.0
+)
+
+require (
+	github.com/mattn/go-isatty v0.0.20 // indirect
+	golang.org/x/sync v0.8.0 // indirect
+)
 
 replace src.elv.sh => /repo
